@@ -292,6 +292,9 @@ def run_property(prop_factory, tier, seed, replay=None):
                 c = json.load(open(os.path.join(rdir, f)))
                 cs.append(c.get("case", c))
         replayed = len(cs)
+        if not all(prop.server_of(c) in paths for c in cs if not c.get("_external")):
+            info["replay_skipped_unbuilt_server"] = sum(1 for c in cs if not c.get("_external") and prop.server_of(c) not in paths)   # restricted run
+            cs = [c for c in cs if c.get("_external") or prop.server_of(c) in paths]
         ext = [c for c in cs if c.get("_external") and hasattr(prop, "replay_external")]
         for c in ext:
             stats.evaluations += 1
